@@ -926,7 +926,9 @@ def exec_probes():
     return _exec_cache
 
 
-def search_witness(pid, obligation, tier):
+def search_witness(pid, obligation, tier, skip=None):
+    """first failing case of the property's family; observations matching one of the `skip` regexes (the recorded open known
+    findings' `replay_match`) are passed over, so that a known finding is never reported as the witness of something else"""
     if pid == "C20":
         return c20_witness(tier)
     fam = FAMILIES.get(pid)
@@ -937,6 +939,8 @@ def search_witness(pid, obligation, tier):
         tried += 1
         res = run_case(case, timeout=20 if pid == "C17" else 60)
         why = oracle(res)
+        if why and skip and any(re.search(rx, why) for rx in skip):
+            continue
         if why:
             return {"case": case, "observed": why, "cases_tried": tried, "bounded": True,
                     "how": "vx-replay (real graphql_client_codegen built from /repo's working tree)"}
